@@ -609,7 +609,9 @@ Arguments x_update {CC}. Arguments x_undo {CC}. Arguments x_save_ddnnf {CC}. Arg
 Record sstate (CC : Type) := mkS {
   dd : ddnnf;            (* the loaded model (immutable part) *)
   sc : scratch;          (* temps / markers / partial derivatives / md *)
-  cur : cursor;          (* ENUMERATION_CACHE (process-global) *)
+  cur : cursor;          (* Ddnnf.enumeration_cursor: belongs to this loaded model (repair F21;
+                            before it ENUMERATION_CACHE, one map for the whole process, finding
+                            K2); emptied when clause-update / undo-update replace the nodes *)
   cache : option CC;     (* Ddnnf.cached_state: only for CNF inputs *)
 }.
 Arguments dd {CC}. Arguments sc {CC}. Arguments cur {CC}. Arguments cache {CC}. Arguments mkS {CC}.
@@ -683,8 +685,10 @@ Inductive eres := EOk (r : scratch * cursor * option (list cfg)) | EPanic (site 
 (* Ddnnf::enumerate; the result is Model/Enumerate.v [enumerate] whenever no partial operation
    fails.  enumerate_node returns early when range.1 = 0 or the node's temp is 0, and a literal
    root never subtracts.  NOT modelled: in the release profile `range.1 - range.0` wraps when the
-   cursor is beyond a non-zero page end (reported as a panic in both profiles here; this needs a
-   cursor left behind by ANOTHER model, finding K2). *)
+   cursor is beyond a non-zero page end (reported as a panic in both profiles here).  That needs a
+   cursor that does not belong to the model - before the repair F21 one left behind by ANOTHER
+   model or by this model before a clause-update (finding K2); with the cursor per model and
+   emptied on every update it is unreachable: Proofs/StreamMsgCursor.v, stream_inv. *)
 Definition enumerate_chk (ver : version) (dbg : bool) (d : ddnnf) (A : cfg) (amount : Z)
            (c : cursor) (s : scratch) : eres :=
   if amount =? 0 then EOk (enumerate d A amount c s)
@@ -785,7 +789,8 @@ Definition exec (ver : version) (dbg : bool) (rq : request) (chs : list choice) 
       match x_update X d cc (p_add p) (p_rmv p) (r_total rq) (sc st) with
       | APanic site => (st, SPanic site, true)
       | AOk (d', s', cc', true) =>
-        ({| dd := d'; sc := s'; cur := cur st; cache := Some cc' |}, SOk EmptyString, true)
+        (* F21: Ddnnf::swap empties the cursor of the model whose nodes it replaces *)
+        ({| dd := d'; sc := s'; cur := []; cache := Some cc' |}, SOk EmptyString, true)
       | AOk (d', s', cc', false) =>
         ({| dd := d'; sc := s'; cur := cur st; cache := Some cc' |},
          SErr E5 "E5 error: could not update cached state", true)
@@ -799,7 +804,8 @@ Definition exec (ver : version) (dbg : bool) (rq : request) (chs : list choice) 
       match x_undo X d cc (sc st) with
       | APanic site => (st, SPanic site, true)
       | AOk (d', s', cc', true) =>
-        ({| dd := d'; sc := s'; cur := cur st; cache := Some cc' |}, SOk EmptyString, true)
+        (* F21: undo_on_cached_state ends in Ddnnf::swap, which empties the cursor *)
+        ({| dd := d'; sc := s'; cur := []; cache := Some cc' |}, SOk EmptyString, true)
       | AOk (d', s', cc', false) =>
         ({| dd := d'; sc := s'; cur := cur st; cache := Some cc' |}, SErr E5 fail, true)
       end
